@@ -26,7 +26,13 @@
 //!    [0,3)).  Then the ranges become [0,2),[3,5).  From scratch the lexer runs on into the second
 //!    range: (word [0,5)).  Incrementally the difference [3,5) does not intersect [0,3), the old
 //!    word is reused and a second word [3,5) is lexed.
-use tree_sitter::{Parser, Point, Range, Tree};
+//! 5. `multibyte-lookahead-char` (an EDIT, no ranges): lst, text "ab" + U+20AD (e2 82 ad, not a word
+//!    character).  The word "ab" peeked that character; `lookahead_bytes` records ONE byte (`ts_lexer_finish`:
+//!    current position + 1), although the decoder examined all three.  Replacing the LAST byte
+//!    (ad -> ac) turns the character into `€`, a word character: from scratch one word "ab€" [0,5);
+//!    incrementally the edit at byte 4 lies beyond "ab"'s recorded look-ahead [2,3), the old word is
+//!    reused and "€" becomes a second word.
+use tree_sitter::{InputEdit, Parser, Point, Range, Tree};
 
 fn rng(a: usize, b: usize) -> Range {
     Range { start_byte: a, end_byte: b, start_point: Point { row: 0, column: a }, end_point: Point { row: 0, column: b } }
@@ -85,11 +91,34 @@ fn scenario(lang: &str, name: &str, text: &[u8], first: &[Range], second: &[Rang
     (!same && (!se || !ie)) as i32
 }
 
+fn edit_scenario(lang: &str, name: &str, old_text: &[u8], start: usize, old_end: usize, ins: &[u8]) -> i32 {
+    let b = tsv_harness::zoo::load(lang).expect("language");
+    let mut p = Parser::new();
+    p.set_language(&b.language).unwrap();
+    let mut old = p.parse(old_text, None).unwrap();
+    let mut new_text = old_text[..start].to_vec();
+    new_text.extend_from_slice(ins);
+    new_text.extend_from_slice(&old_text[old_end..]);
+    let pt = |i: usize| Point { row: 0, column: i };
+    old.edit(&InputEdit { start_byte: start, old_end_byte: old_end, new_end_byte: start + ins.len(), start_position: pt(start), old_end_position: pt(old_end), new_end_position: pt(start + ins.len()) });
+    let incr = p.parse(&new_text, Some(&old)).unwrap();
+    let mut q = Parser::new();
+    q.set_language(&b.language).unwrap();
+    let scratch = q.parse(&new_text, None).unwrap();
+    println!("== {name}: {:?} -> {:?}", String::from_utf8_lossy(old_text), String::from_utf8_lossy(&new_text));
+    println!("  incremental : {}", show(&incr));
+    println!("  from scratch: {}", show(&scratch));
+    let same = show(&incr) == show(&scratch);
+    println!("  {}", if same { "SAME" } else if !scratch.root_node().has_error() { "DIFFERENT (scratch tree has no ERROR/MISSING)" } else { "different, scratch has errors" });
+    (!same && !scratch.root_node().has_error()) as i32
+}
+
 fn main() {
     let mut bad = 0;
     bad += scenario("fx_depends_on_column", "column-token-range-change", b" x", &[], &[rng(1, 2)]);
     bad += scenario("fx_depends_on_column", "empty-range-zero-width", b"  x", &[rng(0, 0)], &[rng(2, 3)]);
     bad += scenario("fx_unicode_classes", "range-boundary-splits-character", " a\u{e9}Z".as_bytes(), &[rng(1, 5)], &[rng(1, 3), rng(3, 5)]);
     bad += scenario("lst", "eof-lookahead-range-added", b"ab cd", &[rng(0, 2)], &[rng(0, 2), rng(3, 5)]);
+    bad += edit_scenario("lst", "multibyte-lookahead-char", b"ab\xe2\x82\xad", 4, 5, b"\xac");
     std::process::exit(bad);
 }
